@@ -84,6 +84,18 @@ fn pair_case<P: G>(n: usize, m: usize, d: usize, cp: usize, cv: usize) -> Box<dy
             res.outcome = "not-accepted-at-minimal-capacity(skipped)".into();
             return res;
         }
+        // parameters exist at the minimal capacity (the baseline used them): a power-of-two capacity the constructor refuses is a
+        // capacity no verifier can have -- the capacity dimension this property owns
+        for c in [cp, cv] {
+            if let Ok(Err(e)) = catch(|| P::params(n, c, P::pc_gens(d))) {
+                res.outcome = "parameters-refused".into();
+                res.violate(
+                    format!("params/capacity={}", c),
+                    format!("parameters for {} bits exist at capacity {} but are refused at capacity {}: {}", n, m, c, crate::api::err_name(&e)),
+                );
+                return res;
+            }
+        }
         let fresh = |c: usize| P::params(n, c, P::pc_gens(d)).honest();
         // a valid proof of aggregation size mm, made at ITS minimal capacity, to be presented to another object
         let other_proof = |mm: usize| -> Option<(Wit, RangeProof<P>)> {
@@ -343,13 +355,19 @@ fn run_group<P: G>(rep: &mut Report) {
             }
         }
     }
+    // capacities beyond the largest bit length (the two limits are unrelated)
+    for (n, m) in [(1usize, 1usize), (2, 2)] {
+        for (cp, cv) in [(m, 64usize), (m, 128), (128, m), (64, 128)] {
+            cases.push(pair_case::<P>(n, m, 1, cp, cv));
+        }
+    }
     rep.explore("C12", cases);
     rep.explore("C12", mixed_cases::<P>(2, 1, if thorough { 4 } else { 3 }));
     rep.explore("C12", mixed_cases::<P>(64, 2, 2));
 }
 
 pub fn run(rep: &mut Report) {
-    rep.rule = "bit lengths x aggregation {1,2,4,8} x every pair (c_p, c_v) of powers of two in [m, 8] (thorough: 32) x degree {1,2}, every parameter object created inside the case: baseline = proved \
+    rep.rule = "bit lengths x aggregation {1,2,4,8} x every pair (c_p, c_v) of powers of two in [m, 8] (thorough: 32) x degree {1,2}, plus pairs with capacity 64 / 128 at 1 and 2 bits, every parameter object created inside the case: baseline = proved \
                 and accepted at the minimal capacity c = m; then prove under capacity c_p and verify (and recover) under capacity c_v for the use \
                 histories {fresh objects; the verifier's object first verified another aggregation size (smallest / largest it serves); the \
                 prover's object first proved another aggregation size}; recovered masks equal those at the minimal capacity; the vector \
